@@ -15,9 +15,31 @@ ADD_REF = "ide::symbol_map::SymbolMap::add_reference"
 ADD_POS = "ide::symbol_map::SymbolMap::add_to_pos_to_symbol_map"
 
 
+WRAPPERS = set()
+
+
+def find_wrappers(prog):
+    """functions of the indexer that hand on the (text, range) pair of one utils::identifier call unchanged (possibly
+    inside an Option): a snippet around identifier() extracted into a helper"""
+    WRAPPERS.clear()
+    for p, b in prog.bodies.items():
+        if b.crate != "ide.rlib" or b.parent or p in (IDENT, NAMEVAL) or not p.startswith("ide::index"):
+            continue
+        if "EcoString" not in b.local_ty(0) or "FileRange" not in b.local_ty(0):
+            continue
+        try:
+            o = prov.origins(b, 0)
+        except Exception:
+            continue
+        calls = {(x[1], x[2]) for x in o if x[0] == "call" and not x[1].endswith("::from_residual")}
+        others = [x for x in o if x[0] != "call" and x[0] != "agg"]
+        if len(calls) == 1 and not others and next(iter(calls))[0] in (IDENT, NAMEVAL):
+            WRAPPERS.add(p)
+
+
 def pair_source(o):
     """(callee, block) of the identifier() call an origin comes from, and which component"""
-    if o[0] == "call" and o[1] in (IDENT, NAMEVAL):
+    if o[0] == "call" and (o[1] in (IDENT, NAMEVAL) or o[1] in WRAPPERS):
         comp = "loc" if "1" in o[3] else "name"
         return (o[1], o[2]), comp
     return None, None
@@ -44,6 +66,7 @@ def run(ck, prog):
         ck.rule(r, t)
 
     # ---- R06.1 constructors ----------------------------------------------------------
+    find_wrappers(prog)
     n = 0
     per = {}
     for b, i, t in prog.call_sites(lambda c: bool(CTORS.match(c))):
